@@ -237,7 +237,10 @@ class Ctx:
             "wall_s": round(time.time() - self.t0, 2),
             "violations": len(unlisted),
         }
-        if not self.replay:
+        if not self.replay and os.path.realpath(REPO) != "/repo":
+            # a run against a scratch tree (VERIF_REPO=<mutant worktree>) must not overwrite the evidence of /repo
+            self.log("evidence not written (tree under test is %s, not /repo)" % REPO)
+        elif not self.replay:
             os.makedirs(os.path.join(VERIF, "evidence"), exist_ok=True)
             tmp = os.path.join(VERIF, "evidence", self.pid + ".json.tmp")
             with open(tmp, "w") as f:
